@@ -280,6 +280,10 @@ func body(s *simrt.Sim, tier string) {
 			}
 			// superseded for sure: a later Batch of the same key returned before this one could be due
 			for _, o := range byKey[c.key] {
+				// (a Batch that overlaps or follows a Close invocation may be a no-op on the closed batcher: it supersedes nothing)
+				if ci := closeInvoke.Load(); ci != 0 && o.ret > ci {
+					continue
+				}
 				if o != c && o.inv > c.ret && o.retTime.Before(c.invTime.Add(interval-early)) {
 					s.Fail("suppressed-value-delivered", fmt.Sprintf("subscriber %d received %d for key %s although Batch(%s,%d) returned %v after it, inside the interval", sb.id, c.val, c.key, o.key, o.val, o.retTime.Sub(c.invTime)))
 				}
